@@ -101,12 +101,16 @@ def find_blocks(toks, start=0, end=None, keywords=('impl', 'trait', 'mod')):
         elif depth == 0 and k == 'id' and t in keywords:
             # header up to '{' (or ';' for `mod x;`)
             m = j
-            ang = 0
+            bd = 0
             while m < end:
                 kk, tt = toks[m]
-                if kk == 'p' and tt == '{':
+                if kk == 'p' and tt in '([':
+                    bd += 1
+                elif kk == 'p' and tt in ')]':
+                    bd -= 1
+                elif kk == 'p' and tt == '{' and bd == 0:
                     break
-                if kk == 'p' and tt == ';':
+                elif kk == 'p' and tt == ';' and bd == 0:
                     m = None
                     break
                 m += 1
